@@ -82,7 +82,10 @@ func (e *posEngine) generate(r *rng, n int, tier string, emit func(string)) {
 	for i := 0; i < n; i++ {
 		fault := r.pick(faults)
 		tb := &textBuilder{line: 1}
-		if r.chance(1, 5) {
+		if r.chance(1, 4) {
+			// blank / comment lines before the first token count as lines
+			tb.write(r.pick([]string{"\n", "\n\n\n", "  \n\t\n", "; leading comment\n\n", "\r\n\r\n"}))
+		} else if r.chance(1, 5) {
 			// a ';; $MODULE name' first line names the module only when the caller's cursor does not
 			tb.write(r.pick([]string{";; $MODULE other.lisp\n", ";; $MODULE scratch/old-dump.lisp\n", ";; $MODULE m2\n\n"}))
 		}
